@@ -182,11 +182,66 @@ func runSlots(c *Ctx) {
 			}
 			return false, false
 		}
+		// (F66) a transfer that finished while its receiver was leaving: the slot was released by handlePeerLeft (`slot.left`) and nobody
+		// holds a slot for that peer now (`active[peer] == nil`) - no running transfer can be disturbed by the status written then
+		releasedAndVacant := func(f *FuncInfo, e ast.Expr) bool {
+			fi := f.Info()
+			exprs := []ast.Expr{e}
+			if v, ok := ObjOf(fi, e).(*types.Var); ok && !v.IsField() {
+				if own := owningFunc(f, v); own != nil {
+					if ds := allDefs(own, v); len(ds) == 1 {
+						exprs = []ast.Expr{ds[0]}
+					}
+				}
+			}
+			for _, x := range exprs {
+				vacant, left := false, false
+				for _, a := range Implied(x, true) {
+					if !a.Val {
+						continue
+					}
+					if be, ok := ast.Unparen(a.E).(*ast.BinaryExpr); ok && be.Op == token.EQL {
+						if ix, ok := ast.Unparen(be.X).(*ast.IndexExpr); ok && isField(fi, ix.X, active) {
+							if id, ok := ast.Unparen(be.Y).(*ast.Ident); ok && id.Name == "nil" {
+								vacant = true
+							}
+						}
+					}
+					if sel, ok := ast.Unparen(a.E).(*ast.SelectorExpr); ok && sel.Sel.Name == "left" && slotParam != nil && ObjOf(fi, sel.X) == slotParam {
+						left = true
+					}
+				}
+				if vacant && left {
+					return true
+				}
+			}
+			return false
+		}
 		spec := &PassSpec{Name: "release"}
 		spec.Vias = []Via{
 			{Cond: func(f *FuncInfo, e ast.Expr) (string, bool, bool) {
 				if ok, pv := ownTest(f.Info(), e); ok {
 					return "own", pv, true
+				}
+				// a conjunction one of whose conjuncts is `active[peer] == slot || <released and vacant>`
+				var conj func(x ast.Expr) bool
+				conj = func(x ast.Expr) bool {
+					be, ok := ast.Unparen(x).(*ast.BinaryExpr)
+					if !ok {
+						return false
+					}
+					switch be.Op {
+					case token.LAND:
+						return conj(be.X) || conj(be.Y)
+					case token.LOR:
+						okL, pvL := ownTest(f.Info(), be.X)
+						okR, pvR := ownTest(f.Info(), be.Y)
+						return (okL && pvL && releasedAndVacant(f, be.Y)) || (okR && pvR && releasedAndVacant(f, be.X))
+					}
+					return false
+				}
+				if conj(e) {
+					return "own", true, true
 				}
 				return "", false, false
 			}},
